@@ -1644,8 +1644,11 @@ impl VirtualFileSystem for Memfs {
                 return Err(PathError::does_not_exist(src_path).into());
             };
 
-            // 2. Move the associated file if exists to `dst_path`
-            if let Some(mut dst_file) = guard.remove_file(&src_path) {
+            // 2. Move the associated file if exists to `dst_path`, dropping the data of a replaced
+            // destination file so that an entry without data (directory or link) never keeps it
+            let src_file = guard.remove_file(&src_path);
+            guard.remove_file(&dst_path);
+            if let Some(mut dst_file) = src_file {
                 dst_file.path = Some(dst_path.clone());
                 guard.insert_file(dst_path.clone(), dst_file);
             }
